@@ -227,8 +227,19 @@ func VerifC16Split() {
 		if end > len(file) {
 			return
 		}
+		prevLen := len(got)
 		got = append(got, file[p.HeaderSize:end]...)
 		verifAssert(famEnd[len(got)], "C16.split: a piece boundary falls inside a block's family of objects")
+		families := 0
+		for o := prevLen + 1; o <= len(got); o++ {
+			if famEnd[o] {
+				families++
+			}
+		}
+		verifAssert(families >= 1, "C16.split: a piece without any block")
+		if families > 1 {
+			verifAssert(p.HeaderSize+p.ContentSize <= uint64(c16SplitSize), "C16.split: a piece holding several blocks exceeds the target size (in accounted bytes)")
+		}
 		if end != len(file) {
 			sizesOK = false
 		}
